@@ -92,7 +92,7 @@ class FortranRegularExpressions:
         r"POINTER|TARGET|DIMENSION[ ]*\(|"
         r"OPTIONAL|INTENT[ ]*\([ ]*(?:IN|OUT|IN[ ]*OUT)[ ]*\)|DEFERRED|NOPASS|"
         r"PASS[ ]*\(\w*\)|SAVE|PARAMETER|EXTERNAL|"
-        r"CONTIGUOUS)",
+        r"CONTIGUOUS|VALUE|VOLATILE|ASYNCHRONOUS|PROTECTED)",
         I,
     )
     PARAMETER_VAL: Pattern = compile(
